@@ -23,7 +23,18 @@ def _id5(namespace, name):
     return ('ID', name)
 
 
-S.uuidgen = type('U', (), {'uuid5': staticmethod(_id5)})
+_STUB = type('U', (), {'uuid5': staticmethod(_id5)})
+_REAL = S.uuidgen
+
+
+def _call(fn, *a, **k):
+    # the stand-in for uuid5 is installed only around the calls of this harness: other harnesses that are
+    # imported into the same process (the driver evaluates witness predicates of several findings) need the real one
+    S.uuidgen = _STUB
+    try:
+        return fn(*a, **k)
+    finally:
+        S.uuidgen = _REAL
 
 U = [uuid.UUID(int=1), uuid.UUID(int=2)]
 CARDS = [enums.Cardinality.ONE, enums.Cardinality.AT_MOST_ONE, enums.Cardinality.MANY,
@@ -65,7 +76,7 @@ def card(i: int):
 
 
 def _shape(names, ts, cs, lps, ls, implicit):
-    return S._get_object_shape_id(
+    return _call(S._get_object_shape_id, 
         'default::T', [sub(t) for t in ts], list(names), [card(c) for c in cs],
         links_props=list(lps), links=list(ls), has_implicit_fields=implicit)
 
@@ -115,8 +126,8 @@ def tuple_2v2(a1: str, a2: str, b1: str, b2: str, ta: int, tb: int) -> bool:
     if not (ok_name(a1) and ok_name(a2) and ok_name(b1) and ok_name(b2)):
         cov.done('outside-domain')
         return True
-    x = S._get_collection_type_id('tuple', [sub(ta), sub(0)], [a1, a2])
-    y = S._get_collection_type_id('tuple', [sub(tb), sub(0)], [b1, b2])
+    x = _call(S._get_collection_type_id, 'tuple', [sub(ta), sub(0)], [a1, a2])
+    y = _call(S._get_collection_type_id, 'tuple', [sub(tb), sub(0)], [b1, b2])
     cov.done('tuple2v2')
     if x == y:
         return a1 == b1 and a2 == b2 and ta == tb
@@ -134,10 +145,10 @@ def tuple_named_vs_plain(a1: str, a2: str) -> bool:
     if not (ok_name(a1) and ok_name(a2)):
         cov.done('outside-domain')
         return True
-    x = S._get_collection_type_id('tuple', [sub(0), sub(1)], [a1, a2])
-    y = S._get_collection_type_id('tuple', [sub(0), sub(1)], None)
-    z = S._get_collection_type_id('array', [sub(0)], None)
-    w = S._get_set_type_id(sub(0))
+    x = _call(S._get_collection_type_id, 'tuple', [sub(0), sub(1)], [a1, a2])
+    y = _call(S._get_collection_type_id, 'tuple', [sub(0), sub(1)], None)
+    z = _call(S._get_collection_type_id, 'array', [sub(0)], None)
+    w = _call(S._get_set_type_id, sub(0))
     cov.done('domain-separation')
     return x != y and x != z and y != z and w != x and w != y and w != z
 
@@ -148,9 +159,9 @@ def shape_vs_collection(a1: str, b1: str, kind: int) -> bool:
         cov.done('outside-domain')
         return True
     base = 'default::T' if kind == 0 else ('std::FreeObject' if kind == 1 else 'SQLRow')
-    x = S._get_object_shape_id(base, [sub(0)], [a1], [card(0)] if kind != 2 else None,
+    x = _call(S._get_object_shape_id, base, [sub(0)], [a1], [card(0)] if kind != 2 else None,
                                links_props=None if kind == 2 else [False], links=None if kind == 2 else [False])
-    y = S._get_collection_type_id('tuple', [sub(0)], [b1])
-    w = S._get_set_type_id(sub(0))
+    y = _call(S._get_collection_type_id, 'tuple', [sub(0)], [b1])
+    w = _call(S._get_set_type_id, sub(0))
     cov.done('shape-vs-coll')
     return x != y and x != w and y != w
